@@ -83,6 +83,26 @@ def main(argv):
     fn = qu["fn"]
     res = {"prop": prop, "query": qname, "shard": shard, "timeout": timeout}
     t0 = time.time(); c0 = time.process_time()
+    if qu.get("concrete"):
+        # validation obligations that run real external tools (bash, real asyncio with sh children): executed untraced, once
+        q.CONCRETE = True
+        try:
+            r = fn()
+        except Exception as exc:
+            r = "validation raised %r" % (exc,)
+        res["verdict"] = "CONFIRMED" if r == "" else "REFUTED"
+        res["messages"] = [["CONCRETE", r[:400]]]
+        res["stats"] = {"paths": 1, "reached": 1, "skipped": 0, "choices": 0, "failed": 0 if r == "" else 1}
+        res["cpu_s"] = round(time.process_time() - c0, 2)
+        if r != "":
+            res["cex"] = {"args": [], "msg": r}
+        res["twin"] = "REACHED"
+        res["samples"] = [{"args": [], "note": "stub validation against the real tool"}]
+        res["validated"] = 1 if r == "" else 0
+        res["validation_mismatch"] = []
+        res["wall_s"] = round(time.time() - t0, 2)
+        print("RESULT " + json.dumps(res))
+        return 0
     if "smt" in qu:
         # E2 kernel: the obligation is decided by the SMT solvers directly (unbounded); fn is the concrete replay
         r = qu["smt"](shard)
